@@ -80,7 +80,7 @@ class Check:
                 self.known_hits.append(kf)
             return False
         # one replay file per distinct key, at most 40 distinct keys written out
-        if any(v["key"] == key for v in self.violations) or len({v["key"] for v in self.violations}) >= 40:
+        if any(v["key"] == key for v in self.violations) or len({v["key"] for v in self.violations}) >= 400:
             self.violations.append({"key": key, "what": what, "replay": None})
             return True
         os.makedirs(os.path.join(VERIF, "replays"), exist_ok=True)
